@@ -180,7 +180,12 @@ impl VariableLengthExpandOperator {
             .filter(|(target_id, edge_id)| {
                 // Filter by edge type if specified
                 let type_matches = if let Some(ref filter_type) = self.edge_type {
-                    if let Some(edge_type) = self.store.edge_type(*edge_id) {
+                    // the type as this transaction sees the edge (its own uncommitted edges included)
+                    let seen_type = match epoch {
+                        Some(epoch) => self.store.edge_type_versioned(*edge_id, epoch, tx),
+                        None => self.store.edge_type(*edge_id),
+                    };
+                    if let Some(edge_type) = seen_type {
                         edge_type
                             .as_str()
                             .eq_ignore_ascii_case(filter_type.as_str())
